@@ -941,6 +941,9 @@ def build17(m):
         MOD + ':HtmlBlock.check_interrupts_paragraph', [('cls', cls_t('HtmlBlock')), ('lines', FW)], returns=None,
         requires=REQ, ensures=ENS, modifies=['G:HtmlBlock._end_cond'],
         prop=['C01', 'C05']), classmethod_=True)
+    method('Table', 'start', Contract(
+        MOD + ':Table.start', [('line', STR)], returns=BOOL, pure=True,
+        ensures=["result == ('|' in line)"], prop=['C01', 'C14']), static=True)
     method('Footnote', 'start', Contract(
         MOD + ':Footnote.start', [('cls', cls_t('Footnote')), ('line', STR)], returns=BOOL, pure=True,
         ensures=["result == line.lstrip().startswith('[')",
